@@ -1,3 +1,4 @@
+import BigtoolsModel.AtomsSearch
 import BigtoolsModel.AtomsBytes
 import BigtoolsModel.AtomsRB
 import BigtoolsModel.FileOf
@@ -136,3 +137,11 @@ theorem C03_source_item_decoders_take_their_own_bytes :
     Gen.bf_leaf = BF.bothArms BF.leafFields ∧ Gen.bf_nonleaf = BF.bothArms BF.nonLeafFields ∧
     Gen.bf_bedgraph_item = BF.bothArms BF.bedGraphFields ∧ ((BF.layout 0 BF.leafFields).flatMap (·.2)) = List.range 32 :=
   ⟨BF.gen_leaf_bytes, BF.gen_nonleaf_bytes, BF.gen_bedgraph_item_bytes, BF.leaf_arm_covers_the_item.1⟩
+
+/-- **Tie to the source: the search's entry points.** The index is searched with the chromosome id stored in the chromosome tree (a file's
+    ids need not follow the order of its names), nothing makes `search_cir_tree` answer before the index is walked (a query may lie
+    beyond the declared chromosome length: bigBed entries may reach there), and every block the walk yields is collected (the walk is
+    not cut after some number of nodes) — regenerated from bbiread.rs on every run. -/
+theorem C03_source_search_entry_points (cid ix : Nat) :
+    Gen.sc_chrom_id cid ix = cid ∧ Gen.sc_early_returns = [] ∧ Gen.sc_walk_adaptors = [] :=
+  SC.gen_search_entry cid ix
